@@ -192,7 +192,7 @@ class _Fail(AssertionError):
 
 def drive_given(ctx: Ctx) -> None:
     import hypothesis
-    from hypothesis import HealthCheck, Phase, given, settings
+    from hypothesis import HealthCheck, Phase, Verbosity, given, settings
 
     rec, part, mod = ctx.rec, ctx.part, ctx.mod
     muted: set = set()
@@ -227,6 +227,7 @@ def drive_given(ctx: Ctx) -> None:
             deadline=None,
             derandomize=False,
             report_multiple_bugs=False,
+            verbosity=Verbosity.quiet,
             phases=phases,
             suppress_health_check=[HealthCheck.too_slow, HealthCheck.data_too_large, HealthCheck.filter_too_much, HealthCheck.large_base_example],
         )(test)
@@ -275,7 +276,7 @@ def drive_machine(ctx: Ctx) -> None:
     `machine.ops` and raises MachineFail(clause, detail, ops); the shrunk log is the
     replay case ({"part": name, "ops": [...]})."""
     import hypothesis
-    from hypothesis import HealthCheck, Phase, settings
+    from hypothesis import HealthCheck, Phase, Verbosity, settings
     from hypothesis.stateful import run_state_machine_as_test
 
     rec, part = ctx.rec, ctx.part
@@ -294,6 +295,7 @@ def drive_machine(ctx: Ctx) -> None:
             database=None,
             deadline=None,
             report_multiple_bugs=False,
+            verbosity=Verbosity.quiet,
             phases=phases,
             suppress_health_check=[HealthCheck.too_slow, HealthCheck.data_too_large, HealthCheck.filter_too_much, HealthCheck.large_base_example],
         )
